@@ -14,7 +14,10 @@ UMAX = {"u8": "Rs.U8_MAX", "u16": "Rs.U16_MAX", "u32": "Rs.U32_MAX", "u64": "Rs.
 UBITS = {"u8": 8, "u16": 16, "u32": 32, "u64": 64, "u128": 128, "usize": 64}
 IBITS = {"i32": 32, "i64": 64}
 IRNG = {"i32": "Rs.I32_MIN Rs.I32_MAX", "i64": "Rs.I64_MIN Rs.I64_MAX"}
-LOG_MACROS = ("trace", "debug", "info", "warn", "error", "log")
+LOG_MACROS = ("trace", "debug", "info", "warn", "error", "log",
+              # vls-core: `dbgvals!` (util/debug_utils.rs: debug!-prints its arguments) and `policy_log!` (policy/error.rs:
+              # error!/warn! at the level the filter gives the tag) only log
+              "dbgvals", "policy_log")
 LEAN_KW = set("""end from at open type instance where then else do let fun match with if in have show by local prefix
 variable universe theorem def namespace section structure class inductive mutual deriving import export private
 protected partial unsafe macro syntax notation infix return for break continue try catch finally mut using extends
@@ -113,6 +116,14 @@ class FnInfo:
     pass
 
 
+class LazyTy:
+    """Lean type text of an external, rendered when it is printed: a structure mentioned in it may gain type
+    parameters (opaque field types) from functions translated later in the same unit"""
+    def __init__(self, f): self.f = f
+    def __str__(self): return self.f()
+    __repr__ = __str__
+
+
 class Unit:
     """one Rust source file -> one Lean namespace"""
 
@@ -131,9 +142,11 @@ class Unit:
         self.fi = FileIndex(rel, src if src is not None else load(rel))
         self.struct_src = {n: rel for n in self.fi.structs}
         self.fn_src = {}            # (impl, name) -> FileIndex of another file (see fn_files)
+        self.src_texts = [self.fi.src]   # every source text structures / functions are taken from
         cache = {}
         def index_of(r):
-            if r not in cache: cache[r] = FileIndex(r, load(r))
+            if r not in cache:
+                cache[r] = FileIndex(r, load(r)); self.src_texts.append(cache[r].src)
             return cache[r]
         for r in struct_files:      # struct declarations of other files, used as local structures
             idx = index_of(r)
@@ -455,7 +468,7 @@ class FnTranslator:
         return "%s_%d" % (base, self.n)
 
     def add_ext(self, name, ty):
-        if (name, ty) not in self.exts:
+        if name not in [n for n, _ in self.exts]:
             self.exts.append((name, ty))
 
     # ---- entry
@@ -924,7 +937,8 @@ class FnTranslator:
             term, t = self.expr(("path", [a]), env, pre, None)
             terms.append(term if " " not in term or term.startswith("(") else "(" + term + ")")
             tys.append(t)
-        lty = " → ".join([self.u.lt(t, False) for t in tys] + [self.u.lt(rt, False)])
+        u = self.u
+        lty = LazyTy(lambda: " → ".join([u.lt(t, False) for t in tys] + [u.lt(rt, False)]))
         for t in tys + [rt]:
             self.u.opaques_of(t, self.ext_opaques)
         ident = "ext_let_" + name
@@ -1774,8 +1788,29 @@ class FnTranslator:
         return a, at, b, bt
 
     def note_eq(self, t):
+        self.eq_all_fields(t, set())
         for o in self.u.opaques_of(t, []):
             if o not in self.needs_deq: self.needs_deq.append(o)
+
+    def eq_all_fields(self, t, seen):
+        """`==` / `!=` on a struct is the derived `PartialEq`: it compares EVERY field, so every field becomes part of
+        the generated structure (whose `DecidableEq` is then the same relation).  Fail closed on a field whose type
+        is outside the subset and on a hand-written `impl PartialEq`."""
+        k = t[0]
+        if k == "struct":
+            if t[1] in seen: return
+            seen.add(t[1])
+            import re as _re
+            for txt in self.u.src_texts:
+                if _re.search(r"impl(\s*<[^>]*>)?\s+(PartialEq|Eq)(\s*<[^>]*>)?\s+for\s+%s\b" % _re.escape(t[1]), txt) \
+                        and _re.search(r"impl(\s*<[^>]*>)?\s+PartialEq(\s*<[^>]*>)?\s+for\s+%s\b" % _re.escape(t[1]), txt):
+                    raise RsError("== on %s, which has a hand-written impl PartialEq" % t[1])
+            for f, _ in self.u.fi.structs[t[1]]:
+                self.eq_all_fields(self.u.struct_field(t[1], f), seen)
+        elif k in ("opt", "vec", "iter"): self.eq_all_fields(t[1], seen)
+        elif k == "map": self.eq_all_fields(t[2], seen)
+        elif k == "tuple":
+            for x in t[1]: self.eq_all_fields(x, seen)
 
     def cast(self, e, env, pre):
         to = self.u.resolve(e[2], self.impl)
@@ -2085,16 +2120,19 @@ class FnTranslator:
             term, t = self.expr(a, env, pre, pt)
             self.check_ty(t, pt, "argument of external %s" % name)
             terms.append(term if " " not in term or term.startswith("(") else "(" + term + ")")
+        u = self.u
         if rt[0] == "result":
             # an external that returns Result<T, _>: `Option T` in Lean; the only supported use is
             # `ext(..).map_err(|e| policy_error(tag, ..))?`
-            lrt = "(Option %s)" % self.u.lt(rt[1], False)
-            rt = ("extres", rt[1])
-            ots = pts + [rt[1]]
+            inner = rt[1]
+            lrt = lambda: "(Option %s)" % u.lt(inner, False)
+            rt = ("extres", inner)
+            ots = pts + [inner]
         else:
-            lrt = self.u.lt(rt, False)
+            rt0 = rt
+            lrt = lambda: u.lt(rt0, False)
             ots = pts + [rt]
-        lty = " → ".join([self.u.lt(t, False) for t in pts] + [lrt])
+        lty = LazyTy(lambda: " → ".join([u.lt(t, False) for t in pts] + [lrt()]))
         for t in ots:
             self.u.opaques_of(t, self.ext_opaques)
         ident = "ext_" + name.replace(".", "_")
